@@ -229,7 +229,7 @@ var specC09Scalars = Register(&Spec[ScalarsCase]{
 })
 
 func TestC09_Scalars(t *testing.T) {
-	specC09Scalars.Run(t, genScalarsCase, 8000, 80000)
+	specC09Scalars.Run(t, genScalarsCase, 20000, 100000)
 }
 
 // ------------------------------------------------------------------ lists and custom types
@@ -474,7 +474,7 @@ var specC09Lists = Register(&Spec[ListsCase]{
 })
 
 func TestC09_Lists(t *testing.T) {
-	specC09Lists.Run(t, genListsCase, 6000, 60000)
+	specC09Lists.Run(t, genListsCase, 12000, 80000)
 }
 
 // ------------------------------------------------------------------ never panics
@@ -850,7 +850,7 @@ var specC09Pass = Register(&Spec[PassCase]{
 })
 
 func TestC09_PassThrough(t *testing.T) {
-	specC09Pass.Run(t, genPassCase, 6000, 60000)
+	specC09Pass.Run(t, genPassCase, 20000, 100000)
 }
 
 var _ = reflect.DeepEqual
